@@ -28,6 +28,8 @@ if sys.platform.startswith("linux") or sys.platform == "darwin":
 
     class Dumpcap:
         BUFSIZE = io.DEFAULT_BUFFER_SIZE
+        # The ports the transports connect to if the target URI does not name one.
+        DEFAULT_PORTS = {TransportScheme.DOIP: 13400, TransportScheme.HSFZ: 6801}
 
         def __init__(
             self,
@@ -78,7 +80,7 @@ if sys.platform.startswith("linux") or sys.platform == "darwin":
                 # since it defaults to ethernet.
                 case _:
                     outfile = artifacts_dir.joinpath(f"eth-{ts}.pcap.gz")
-                    cmd = await cls._eth_cmd(target.netloc)
+                    cmd = await cls._eth_cmd(target.netloc, cls.DEFAULT_PORTS.get(target.scheme))
 
             if cmd is None:
                 return None
@@ -156,9 +158,9 @@ if sys.platform.startswith("linux") or sys.platform == "darwin":
             return args
 
         @staticmethod
-        async def _eth_cmd(target_ip: str) -> list[str] | None:
+        async def _eth_cmd(target_ip: str, default_port: int | None = None) -> list[str] | None:
             try:
-                host, port = split_host_port(target_ip)
+                host, port = split_host_port(target_ip, default_port)
             except Exception as e:
                 logger.error(f"Invalid argument for target ip: {target_ip}; {e}")
                 return None
